@@ -20,7 +20,7 @@ from .specs import parse_clauses
 from .shapes import make_symbolic
 from . import dsl
 
-Z3_TIMEOUT_MS = int(os.environ.get('PYVC_Z3_TIMEOUT_MS', '20000'))
+Z3_TIMEOUT_MS = int(os.environ.get('PYVC_Z3_TIMEOUT_MS', '60000'))
 CVC5 = '/usr/bin/cvc5'
 
 
@@ -78,6 +78,7 @@ class ParsedContract(object):
         self.entry_hints = []
         self.options = {}
         self.ghost_bindings = {}
+        self.post_hints = []
         self.canaries = []
         self.pre = []           # ordered entry clauses: requires / split / use / unfold
         for kind, call in clauses:
@@ -113,7 +114,10 @@ class ParsedContract(object):
                 self.loop(call.args[0]).shapes[ast.literal_eval(call.args[1])] = eval(
                     compile(ast.Expression(call.args[2]), '<shape>', 'eval'), g)
             elif kind == 'hint':
-                self.loop(call.args[0]).hints.append((ast.literal_eval(call.args[1]), call.args[2]))
+                if isinstance(call.args[0], ast.Constant) and call.args[0].value == 'post':
+                    self.post_hints.append(call.args[2])
+                else:
+                    self.loop(call.args[0]).hints.append((ast.literal_eval(call.args[1]), call.args[2]))
             elif kind == 'unroll':
                 self.loop(call.args[0]).unroll = ast.literal_eval(call.args[1])
             elif kind == 'ghost':
@@ -130,7 +134,7 @@ class ParsedContract(object):
                 raise OutOfReach('unknown clause %s' % kind)
 
     def loop(self, knode):
-        k = ast.literal_eval(knode)
+        k = ast.literal_eval(knode)      # int (loop ordinal) or 'c<k>' (comprehension ordinal)
         if k not in self.loops:
             self.loops[k] = LoopSpec()
         return self.loops[k]
@@ -511,6 +515,8 @@ def run_unit(cdef, config=None, callee_contracts=None):
         for u in cands:
             if u.cdef is cdef:
                 continue
+            if u.pc.ghosts and u.cdef.name not in I.ghost_bindings:
+                continue        # no ghost instantiation declared: the callee is inlined
             if u.matches(I, f, args, kwargs):
                 return u
         return None
@@ -552,11 +558,19 @@ def run_unit(cdef, config=None, callee_contracts=None):
     res.used_lemmas = sorted(I.used_lemmas)
     # discharge
     seen = {}
+    n_unknown = 0
     for ob in obligations:
         k = (ob.goal.get_id(), tuple(p.get_id() for p in ob.pc))
         if k in seen:
             continue
-        rec = discharge(ob)
+        if n_unknown >= 2:
+            # the unit is undecided already: do not burn the budget on the rest
+            rec = ObRecord(ob)
+            rec.status, rec.detail = 'unknown', 'skipped after earlier unknowns'
+        else:
+            rec = discharge(ob)
+        if rec.status == 'unknown':
+            n_unknown += 1
         seen[k] = rec
         res.obs.append(rec)
         res.solver_time += rec.time
@@ -653,6 +667,8 @@ def run_path(I, fn, cdef, pc):
             raise_specs.append((cls, w, ens, cls_n, when))
         if outcome[0] == 'return':
             fr0.env['result'] = outcome[1]
+            for h in pc.post_hints:
+                I.eval(h)
             for e in pc.ensures:
                 bt = I.bool_term(I.eval(e))
                 I.oblige(z3.BoolVal(bt) if isinstance(bt, bool) else bt, 'post', ast.unparse(e), where)
